@@ -306,6 +306,10 @@ impl LsmVerifier {
         if let Some(o) = output.key() {
             return Err(corruption("data construction").with_debug_field("output", o));
         }
+        if let Some(gc_next) = gc_next {
+            // The outputs are exhausted, but the policy retains a key of the remaining input.
+            return Err(corruption("data loss").with_debug_field("input", gc_next));
+        }
         while let Some(i) = input.key_value() {
             let mut setsum = sst::Setsum::default();
             setsum.insert(i);
